@@ -40,6 +40,8 @@ type Peer struct {
 	Announced   bool // sent bitfield/unchoke
 	ClosedSeen  bool
 	ClaimLog    []Claim
+	replyHS     *[20]byte // outgoing connection from the client: answer its handshake with this info-hash
+	wrote       bool
 }
 
 type Req struct{ Index, Begin, Length uint32 }
@@ -81,6 +83,7 @@ func (p *Peer) reset() {
 func (p *Peer) SendRaw(b []byte) {
 	if p.Conn != nil {
 		p.Conn.Write(b)
+		p.wrote = true
 	}
 }
 
@@ -116,6 +119,10 @@ func (p *Peer) Process() {
 		p.ClientHS = hs
 		p.GotHS = true
 		p.raw = p.raw[68:]
+		if p.replyHS != nil && !p.SentHS {
+			p.SendRaw(refcodec.Handshake(*p.replyHS, p.ID, refcodec.ReservedBits(p.Ext, p.Fast, p.DHT)))
+			p.SentHS = true
+		}
 	}
 	msgs, rest := refcodec.ParseStream(p.raw)
 	p.raw = append([]byte{}, rest...)
